@@ -6,7 +6,9 @@ use serde_json::{json, Value};
 use text_utils::dictionary::{Dictionary, DictionaryDistanceMeasure};
 
 // slot -> character; kinds: s = space, l = letter, p = punctuation
-const CH: [(&str, &str); 6] = [(" ", "s"), ("x", "l"), ("y", "l"), ("z", "l"), ("-", "p"), ("ä", "l")];
+// slot 7 (word mode only) is the spacing acute accent U+00B4, whose NFKC form is a blank followed by the combining acute:
+// in the cleaned, normalised text it is a word separator followed by a letter-like symbol (id 7 = U+0301)
+const CH: [(&str, &str); 7] = [(" ", "s"), ("x", "l"), ("y", "l"), ("z", "l"), ("-", "p"), ("ä", "l"), ("\u{00B4}", "l")];
 const BOW: i64 = 9001;
 const EOW: i64 = 9002;
 
@@ -14,12 +16,15 @@ fn line_of(slots: &Value) -> String {
     slots.as_array().unwrap().iter().map(|x| CH[x.as_u64().unwrap() as usize - 1].0).collect()
 }
 fn line_view(slots: &Value) -> Value {
-    Value::Array(slots.as_array().unwrap().iter().map(|x| { let s = x.as_u64().unwrap() as usize; json!({"i": s, "k": CH[s - 1].1}) }).collect())
+    Value::Array(slots.as_array().unwrap().iter().flat_map(|x| {
+        let s = x.as_u64().unwrap() as usize;
+        if s == 7 { vec![json!({"i": 1, "k": "s"}), json!({"i": 7, "k": "l"})] } else { vec![json!({"i": s, "k": CH[s - 1].1})] }
+    }).collect())
 }
 /// a dictionary key back to symbol ids ("<bow>" / "<eow>" markers and the joining spaces of 3-grams)
 fn token_ids(key: &str, mode: &str) -> Vec<i64> {
     let idof = |c: &str| -> i64 {
-        if c == "<bow>" { BOW } else if c == "<eow>" { EOW } else { CH.iter().position(|(s, _)| *s == c).map(|p| p as i64 + 1).unwrap_or(0) }
+        if c == "<bow>" { BOW } else if c == "<eow>" { EOW } else if c == "\u{0301}" { 7 } else { CH.iter().position(|(s, _)| *s == c).map(|p| p as i64 + 1).unwrap_or(0) }
     };
     if mode == "char3" {
         key.split(' ').map(idof).collect()
